@@ -631,11 +631,17 @@ fn run_state(f: &[&str]) -> String {
                 };
                 let mut kinds = diff_kinds(&inc, &fr);
                 let mut nondet = false;
-                if !kinds.is_empty() && !kinds.contains(&"eff".to_string()) {
+                let diag_of = |o: &Vec<(String, String)>| o.iter().find(|(k, _)| k == "diag").map(|(_, v)| v.clone()).unwrap_or_default();
+                let anon = |d: &str| d.split('\n').nth(1).unwrap_or("").to_string();
+                if kinds == vec!["diag".to_string()] && anon(&diag_of(&inc)) == anon(&diag_of(&fr)) {
+                    // the same diagnostics, attributed to another of several identical files
+                    nondet = true;
+                }
+                if !nondet && !kinds.is_empty() && !kinds.contains(&"eff".to_string()) {
                     // Two servers started on identical contents can disagree with each other (which
                     // of two equal declarations is reported depends on hash-map order).  If the
                     // running server agrees with *some* fresh server, that is what happened.
-                    for _ in 0..4 {
+                    for _ in 0..8 {
                         let mut other = new_lsp(&st.proj);
                         for (file, text) in &st.open {
                             other.compiler_state.db.insert_open_file(st.proj.rel(file), text.clone());
